@@ -614,8 +614,15 @@ def _call_forms(par, p0, E, p1):
     dpos = ak.Array({"x": un(aa.position.x), "y": un(aa.position.y), "z": un(aa.position.z)}, with_name="Vector3D")
     dmom = ak.Array({"px": un(aa.momentum.px), "py": un(aa.momentum.py), "pz": un(aa.momentum.pz)}, with_name="Momentum3D")
     dpiv = ak.Array({"x": un(aa.pivot.x), "y": un(aa.pivot.y), "z": un(aa.pivot.z)}, with_name="Vector3D")
-    for pname, pv in (("doc-form-array", dpiv), ("tuple", tuple(p0))):
-        hd = p3.helix_awk(position=dpos, momentum=dmom, charge=un(aa.charge), pivot=pv)
+    # ... and the momentum exactly as the page writes it: px / py / pz lists in a record named "Vector3D"
+    dmom_doc = ak.Array({"px": un(aa.momentum.px), "py": un(aa.momentum.py), "pz": un(aa.momentum.pz)}, with_name="Vector3D")
+    for pname, pv, dm in (("doc-form-array", dpiv, dmom), ("tuple", tuple(p0), dmom), ("tuple:momentum-named-as-documented", tuple(p0), dmom_doc),
+                          ("doc-form-array:momentum-named-as-documented", dpiv, dmom_doc)):
+        try:
+            hd = p3.helix_awk(position=dpos, momentum=dm, charge=un(aa.charge), pivot=pv)
+        except Exception as e:  # noqa: BLE001
+            report(f"C13:constructor-forms-differ:helix_awk:physics:doc-form-position:{pname}-pivot:raises:{type(e).__name__}",
+                   f"the array example of docs/user-manual/helix.md ('Create helix from physics parameters') raises {type(e).__name__}: {str(e)[:160]}", {"par": par, "pivot": p0}); continue
         if hd.dr.ndim != 2 or ak.to_list(ak.num(hd.dr, axis=1)) != cnts:
             report(f"C13:constructor-forms-differ:helix_awk:physics:doc-form-position:{pname}-pivot", f"position / momentum as records of ragged lists: result has type {str(hd.dr.type)[:60]}, tracks are nested {cnts}", {"par": par, "pivot": p0}); continue
         gd = [float(ak.flatten(hd[f])[1]) for f in FIELDS5]
